@@ -157,6 +157,10 @@ pub fn menu(prop: &str, tier: &str, depth: usize, e: &Exec) -> Vec<Op> {
             }
             if n > 0 {
                 out.push(Op::ImportOlder { topic: "a".into(), ctx: Ctx::Zero, ttl: "".into() });
+                // a frame older than the registration of the context it is imported into
+                if let Some(r) = regs.first() {
+                    out.push(Op::ImportOlder { topic: "a".into(), ctx: r.clone(), ttl: "".into() });
+                }
                 out.push(Op::ImportAfter { rank: 0, topic: "ab".into(), ctx: ctxs.last().unwrap().clone(), ttl: "".into() });
                 out.push(Op::ImportDup { rank: n - 1 });
             }
@@ -198,7 +202,7 @@ pub fn menu(prop: &str, tier: &str, depth: usize, e: &Exec) -> Vec<Op> {
                 out.push(Op::Remove { rank: r });
             }
             if n > 0 {
-                out.push(Op::ImportOlder { topic: "a".into(), ctx: Ctx::Zero, ttl: "".into() });
+                out.push(Op::ImportOlder { topic: "a".into(), ctx: ctxs.last().unwrap().clone(), ttl: "".into() });
                 out.push(Op::ImportAfter { rank: 0, topic: "a".into(), ctx: ctxs.last().unwrap().clone(), ttl: "".into() });
             }
             gc_ops(e, false, &mut out);
